@@ -380,3 +380,95 @@ Definition prom_prog_presized_msg : dprog := {|
                           [DCall (DVar "tsns") (DSliceTo "msg" "tsns") (DVar "value") (DFill "tsns"); DZero "points"; DReset "tsns"; DReset "value"]];
                 DIfLenPos "tsns" [prom_call]]
 |}.
+
+(* ------------------------------------------------------------------------------------------ *)
+(** * 4. onProfile at column level and the profile insert service *)
+
+(* parserDoer.onProfile, one statement per slice field of p.profile *)
+Inductive pop :=
+| PApp (f : string)        (* p.profile.F = append(p.profile.F, x): one element per call *)
+| PSet (f : string).       (* p.profile.F = x: the array of THIS call replaces the field *)
+Record profile_prog := { pp_ops : list pop; pp_flush_resets : bool; pp_unknown : Z }.
+(* service/impl/profileInsertService.go ProcessRequest, per column *)
+Inductive kop :=
+| KRows (f : string)       (* one value per element of profileSeriesData.F *)
+| KOne (f : string)        (* profileSeriesData.F appended as ONE array value *)
+| KBad (s : string).
+
+Definition on_profile_prog_model : profile_prog := {|
+  pp_ops := [PApp "TimestampNs"; PApp "Ptype"; PApp "ServiceName"; PApp "PeriodType"; PApp "PeriodUnit"; PApp "DurationNs";
+             PApp "PayloadType"; PApp "Payload"; PSet "SamplesTypesUnits"; PSet "Tags"; PSet "ValuesAgg"; PSet "Function"; PSet "Tree"];
+  pp_flush_resets := true; pp_unknown := 0 |}.
+Definition profile_cols_model : list (string * kop) :=
+  [("timestampNs", KRows "TimestampNs"); ("ptype", KRows "Ptype"); ("serviceName", KRows "ServiceName");
+   ("sampleTypesUnits", KOne "SamplesTypesUnits"); ("periodType", KRows "PeriodType"); ("periodUnit", KRows "PeriodUnit");
+   ("tags", KOne "Tags"); ("durationNs", KRows "DurationNs"); ("payloadType", KRows "PayloadType"); ("payload", KRows "Payload");
+   ("valuesAgg", KOne "ValuesAgg"); ("tree", KOne "Tree"); ("functions", KOne "Function")].
+
+Definition pop_field (o : pop) : string := match o with PApp f | PSet f => f end.
+Definition is_app (ops : list pop) (f : string) : bool := existsb (fun o => match o with PApp g => String.eqb f g | _ => false end) ops.
+Definition is_set (ops : list pop) (f : string) : bool := existsb (fun o => match o with PSet g => String.eqb f g | _ => false end) ops.
+Definition kop_field (k : kop) : string := match k with KRows f | KOne f | KBad f => f end.
+
+(* what a request that was built by `calls` calls of onProfile (since the last reset) appends to every column: None when a
+   column reads a field in a way that does not fit how onProfile fills it *)
+Definition kop_rows (ops : list pop) (calls : N) (k : kop) : option N :=
+  match k with
+  | KRows f => if is_app ops f then Some calls else None
+  | KOne f => if is_set ops f then Some 1%N else None
+  | KBad _ => None
+  end.
+Fixpoint opt_all {A : Type} (l : list (option A)) : option (list A) :=
+  match l with
+  | [] => Some []
+  | Some x :: r => match opt_all r with Some y => Some (x :: y) | None => None end
+  | None :: _ => None
+  end.
+Definition profile_request_cols (p : profile_prog) (cols : list (string * kop)) (calls : N) : option (list N) :=
+  opt_all (map (fun c => kop_rows (pp_ops p) calls (snd c)) cols).
+
+(* decidable check: every slice field of ProfileData is filled by exactly one statement of onProfile; the block under the
+   size test sends and resets; every column of the service reads a field the way it is filled, every field is read by
+   exactly one column; the counted column (res[0]) grows per row; rows AND per-request arrays both occur *)
+Definition profile_ok (p : profile_prog) (fields : list string) (cols : list (string * kop)) (unknown : Z) : bool :=
+  pp_flush_resets p && Z.eqb (pp_unknown p) 0 && Z.eqb unknown 0
+  && nodup_str fields
+  && forallb (fun f => Nat.eqb (count_str f (map pop_field (pp_ops p))) 1) fields
+  && forallb (fun o => existsb (String.eqb (pop_field o)) fields) (pp_ops p)
+  && forallb (fun c => is_some (kop_rows (pp_ops p) 1 (snd c))) cols
+  && forallb (fun f => Nat.eqb (count_str f (map (fun c => kop_field (snd c)) cols)) 1) fields
+  && match cols with (_, KRows _) :: _ => true | _ => false end
+  && existsb (fun c => match snd c with KOne _ => true | _ => false end) cols.
+
+(* a profile push at the shared batch: one request with `calls` rows *)
+Definition profile_request (p : profile_prog) (cols : list (string * kop)) (who : Z) (calls : N) : option sreq :=
+  match profile_request_cols p cols calls with Some c => Some {| sr_client := who; sr_cols := c |} | None => None end.
+
+(* harness sharedbatch, profile pairs: both clients push a pprof profile to /ingest (a refused body when bad); their rows
+   share one batch of the profile insert service (table 5) *)
+Record shpcase := { shp_id : Z; shp_a_bad : bool; shp_b_bad : bool; shp_obs : shobs }.
+Definition shp_expected (p : profile_prog) (cols : list (string * kop)) (c : shpcase) : expect * expect * (bool * list N) :=
+  let req (bad : bool) (who : Z) := if bad then None else profile_request p cols who 1 in
+  let ra := req (shp_a_bad c) 1%Z in
+  let rb := req (shp_b_bad c) 2%Z in
+  let reqs := ((match ra with Some r => [r] | None => [] end) ++ (match rb with Some r => [r] | None => [] end))%list in
+  let n := List.length cols in
+  let ans := srun n 0 (sbatch0 n) (map SvReq reqs ++ [SvFlush]) in
+  let tot := sum_cols n (map sr_cols reqs) in
+  (cls_of (is_some ra) (client_ok 1 ans) true, cls_of (is_some rb) (client_ok 2 ans) true, (negb (block_accepted tot), tot)).
+Definition shp_mismatch (p : profile_prog) (cols : list (string * kop)) (c : shpcase) : bool :=
+  let '(ea, eb, (rf, tot)) := shp_expected p cols c in
+  let o := shp_obs c in
+  let bs := table_blocks 5 o in
+  negb (accepts ea (so_a o) && accepts eb (so_b o) && Bool.eqb rf (existsb fst bs)
+        && list_N_eqb tot (sum_cols (List.length cols) (map snd bs))).
+Definition shp_spec_ok (c : shpcase) : bool :=
+  let o := shp_obs c in
+  let stored := sumN (map (fun b => hd 0%N (snd b)) (filter (fun b => negb (fst b)) (table_blocks 5 o))) in
+  (if shp_a_bad c then negb (accepts (Exact C2xx) (so_a o)) && responded (so_a o) else accepts (Exact C2xx) (so_a o))
+  && (if shp_b_bad c then negb (accepts (Exact C2xx) (so_b o)) && responded (so_b o) else accepts (Exact C2xx) (so_b o))
+  && forallb (fun x => negb (snd (fst x)) && all_equal (snd x)) (so_blocks o)
+  && N.eqb stored ((if shp_a_bad c then 0 else 1) + (if shp_b_bad c then 0 else 1))%N.
+Definition shp_mismatches (p : profile_prog) (cols : list (string * kop)) (cs : list shpcase) : list Z :=
+  map shp_id (filter (shp_mismatch p cols) cs).
+Definition shp_spec_violations (cs : list shpcase) : list Z := map shp_id (filter (fun c => negb (shp_spec_ok c)) cs).
